@@ -2,46 +2,113 @@
   Proofs.C09 — lemmas and proofs behind Props/C09.lean.
 -/
 import Spec.Ttl
+import Proofs.C09Expire
+import Proofs.C09Ops
 
 namespace MongoModel.Proofs.C09
-open MongoModel MongoModel.Spec
+open MongoModel MongoModel.Spec MongoModel.Proofs.C09Lemmas
 
 theorem expired_eq_spec (field : String) (secs now : Int) (d : Val) :
-    meetsExpiry field secs now d = isExpired field secs now d := by sorry
+    meetsExpiry field secs now d = isExpired field secs now d :=
+  meetsExpiry_eq field secs now d
 
 theorem expire_single (now secs : Int) (c : Coll) (ix : Index) (field : String) (dir raw : Val)
     (ht : c.ttlIndexes = [ix]) (hk : ix.keys = [(field, dir)]) (hr : ix.ttl = some raw)
     (hs : ttlSeconds raw = .ok (some secs)) :
     ∃ c', expire now c = .ok c' ∧
       c'.docs = c.docs.filter (fun p => !isExpired field secs now p.2) ∧
-      c'.indexes = c.indexes ∧ c'.ttlIndexes = c.ttlIndexes := by sorry
+      c'.indexes = c.indexes ∧ c'.ttlIndexes = c.ttlIndexes := by
+  have ha := ixAction_single ix field dir raw secs hk hr hs
+  refine ⟨filt now c field secs, ?_, ?_, rfl, rfl⟩
+  · rw [expire_eq_pass, ht, pass_cons, ha]
+    rfl
+  · simp only [filt]
+    congr 1
+    funext p
+    rw [meetsExpiry_eq]
 
 theorem expire_idem (now : Int) (c c' : Coll) (h : expire now c = .ok c') :
-    expire now c' = .ok c' := by sorry
+    expire now c' = .ok c' :=
+  C09Lemmas.expire_idem now c c' h
 
 theorem ops_see_unexpired_only (cfg : Cfg) (now : Int) (c c' : Coll) (op : Val)
     (h : expire now c = .ok c') (hop : dataOp op = true) :
     (stepColl cfg now c op).2 = (stepColl cfg now c' op).2 ∧
-    expire now (stepColl cfg now c op).1 = expire now (stepColl cfg now c' op).1 := by sorry
+    expire now (stepColl cfg now c op).1 = expire now (stepColl cfg now c' op).1 :=
+  step_rel h cfg op hop
 
 theorem never_removed (now : Int) (c c' : Coll) (ix : Index) (p : Val × Val)
     (h : expireIndex now c ix = .ok c') (hp : p ∈ c.docs)
     (hne : ∀ field dir secs raw, ix.keys = [(field, dir)] → ix.ttl = some raw →
             ttlSeconds raw = .ok (some secs) → isExpired field secs now p.2 = false) :
-    p ∈ c'.docs := by sorry
+    p ∈ c'.docs := by
+  rw [expireIndex_eq] at h
+  cases ha : ixAction ix with
+  | error e => rw [ha] at h; cases h
+  | ok o =>
+    rw [ha] at h
+    cases o with
+    | none => cases h; exact hp
+    | some fs =>
+      obtain ⟨f, s⟩ := fs
+      cases h
+      obtain ⟨dir, raw, hk, hr, hs⟩ := ixAction_some ix f s ha
+      have := hne f dir s raw hk hr hs
+      rw [← meetsExpiry_eq] at this
+      simp only [filt, List.mem_filter]
+      exact ⟨hp, by simp [this]⟩
 
 theorem compound_or_non_numeric_inert (now : Int) (c : Coll) (ix : Index) :
     (ix.keys.length > 1 → ∀ c', expireIndex now c ix = .ok c' → c' = c) ∧
-    (∀ raw, ix.ttl = some raw → ttlSeconds raw = .ok none → expireIndex now c ix = .ok c) := by sorry
+    (∀ raw, ix.ttl = some raw → ttlSeconds raw = .ok none → expireIndex now c ix = .ok c) := by
+  constructor
+  · intro hl c' h
+    rw [expireIndex_eq] at h
+    cases ha : ixAction ix with
+    | error e => rw [ha] at h; cases h
+    | ok o =>
+      rw [ha] at h
+      cases o with
+      | none => cases h; rfl
+      | some fs =>
+        obtain ⟨f, s⟩ := fs
+        obtain ⟨dir, raw, hk, _, _⟩ := ixAction_some ix f s ha
+        rw [hk] at hl
+        simp at hl
+  · intro raw hr hs
+    rw [expireIndex_eq]
+    have : ixAction ix = .ok none := by
+      unfold ixAction
+      rw [hr]
+      simp only []
+      rw [hs]
+    rw [this]
 
 theorem gone_for_good (now now' : Int) (c c' c'' : Coll) (h : expire now c = .ok c')
     (h' : expire now' c' = .ok c'') :
-    c'.docs.Sublist c.docs ∧ c''.docs.Sublist c'.docs := by sorry
+    c'.docs.Sublist c.docs ∧ c''.docs.Sublist c'.docs :=
+  ⟨(expire_ok now c c' h).1, (expire_ok now' c' c'' h').1⟩
 
 theorem drop_stops_expiry (now : Int) (c : Coll) :
     (c.ttlIndexes = [] → expire now c = .ok c) ∧
     (dropIndexesColl c).ttlIndexes = [] ∧ (dropColl c).ttlIndexes = [] ∧
     (∀ name c', dropIndexColl now c name = (c', .ok ()) →
-        ∀ ix ∈ c'.ttlIndexes, ix.name ≠ name) := by sorry
+        ∀ ix ∈ c'.ttlIndexes, ix.name ≠ name) := by
+  refine ⟨?_, rfl, rfl, ?_⟩
+  · intro h
+    rw [expire_eq_pass, h]
+    rfl
+  · intro name c' h ix hix
+    unfold dropIndexColl at h
+    cases he : expire now c with
+    | error e => rw [he] at h; cases h
+    | ok c1 =>
+      rw [he] at h
+      simp only [] at h
+      split at h
+      · cases h
+        simp only [List.mem_filter] at hix
+        simpa using hix.2
+      · cases h
 
 end MongoModel.Proofs.C09
